@@ -1,2 +1,173 @@
+//! `fipsim digest` — the fault-free part of the simulation under a fixed seed, folded into one
+//! SHA3-256 digest per enabled parameter set and part. Used by C17: the same seeded run is
+//! replayed under every build configuration and the histories are compared.
+//!
+//! parts: `core` (present in every configuration), `os` (OS-RNG entry points through the kernel
+//! seam; only with `default-rng`), `dudect` (constant-time test entry point; only with `dudect`).
+
 use crate::common::*;
-pub fn run(_ctx: &Ctx) -> i32 { harness_error("digest not built yet") }
+use crate::kernel::{self, KResp, KState};
+use crate::prng::Prng;
+use crate::sets::{self, DynSet, MODES};
+use crate::simrng::SimRng;
+use sha3::{Digest as _, Sha3_256};
+
+struct Acc(Sha3_256, u64);
+
+impl Acc {
+    fn new() -> Self { Acc(Sha3_256::new(), 0) }
+    fn bytes(&mut self, tag: &str, b: &[u8]) {
+        self.0.update(tag.as_bytes());
+        self.0.update((b.len() as u64).to_le_bytes());
+        self.0.update(b);
+        self.1 += 1;
+    }
+    fn flag(&mut self, tag: &str, v: bool) { self.bytes(tag, &[u8::from(v)]); }
+    fn hex(self) -> (String, u64) { (hx(&self.0.finalize()), self.1) }
+}
+
+fn core_part(set: &dyn DynSet, seed: u64, iters: u64) -> Result<(String, u64), String> {
+    let info = set.info();
+    let mut a = Acc::new();
+    for i in 0..iters {
+        let mut p = Prng::for_run(seed, &format!("digest-core-{}", info.name), i);
+        let xi = p.array32();
+        let (pk, sk) = set.keygen_seed(&xi);
+        let (pkb, skb) = (pk.to_bytes(), sk.to_bytes());
+        a.bytes("pk", &pkb);
+        a.bytes("sk", &skb);
+        let mut rng = SimRng::healthy(p.bytes(64));
+        let (pk2, sk2) = set.keygen_rng(&mut rng).map_err(|e| format!("keygen_rng: {e}"))?;
+        a.bytes("pk_rng", &pk2.to_bytes());
+        a.bytes("sk_rng", &sk2.to_bytes());
+        let sk_rt = set.sk_from_bytes(&skb).map_err(|e| format!("sk round trip: {e}"))?;
+        let pk_rt = set.pk_from_bytes(&pkb).map_err(|e| format!("pk round trip: {e}"))?;
+        let pk_der = sk.public();
+        a.bytes("pk_derived", &pk_der.to_bytes());
+        a.bytes("sk_rt", &sk_rt.to_bytes());
+        let msg_len = *p.pick(&[0usize, 1, 8, 135, 136, 137, 1000]);
+        let ctx_len = *p.pick(&[0usize, 1, 32, 255]);
+        let msg = p.bytes(msg_len);
+        let ctx = p.bytes(ctx_len);
+        for mode in MODES {
+            let rnd = p.bytes(32);
+            let sig = sk.sign_rng(&mut SimRng::healthy(rnd.clone()), &msg, &ctx, mode).map_err(|e| format!("sign: {e}"))?;
+            a.bytes(mode.name(), &sig);
+            let sig_rt = sk_rt.sign_rng(&mut SimRng::healthy(rnd), &msg, &ctx, mode).map_err(|e| format!("sign(rt): {e}"))?;
+            a.bytes("sig_rt", &sig_rt);
+            a.flag("v_gen", pk.verify(&msg, &sig, &ctx, mode));
+            a.flag("v_rt", pk_rt.verify(&msg, &sig, &ctx, mode));
+            a.flag("v_der", pk_der.verify(&msg, &sig, &ctx, mode));
+            // bit-rotted artefacts: the decision is part of the history
+            let mut bad = sig.clone();
+            let bit = p.usize_below(bad.len() * 8);
+            bad[bit / 8] ^= 1 << (bit % 8);
+            a.flag("v_rot_sig", pk.verify(&msg, &bad, &ctx, mode));
+            let mut m2 = msg.clone();
+            m2.push(0);
+            a.flag("v_other_msg", pk.verify(&m2, &sig, &ctx, mode));
+            for other in MODES {
+                if other != mode {
+                    a.flag("v_other_mode", pk.verify(&msg, &sig, &ctx, other));
+                }
+            }
+        }
+        // error paths
+        let long_ctx = vec![7u8; 256 + (i as usize % 3)];
+        a.flag("sign_long_ctx_is_err", sk.sign_rng(&mut SimRng::healthy(vec![0; 32]), &msg, &long_ctx, MODES[(i % 4) as usize]).is_err());
+        let sig = sk.sign_rng(&mut SimRng::healthy(vec![0; 32]), &msg, &[], MODES[0]).map_err(|e| format!("sign: {e}"))?;
+        a.flag("verify_long_ctx", pk.verify(&msg, &sig, &long_ctx, MODES[0]));
+        let mut bad_sk = skb.clone();
+        let (s0, s1) = info.s_region();
+        let pos = s0 + p.usize_below(s1 - s0);
+        bad_sk[pos] = 0xFF;
+        a.flag("rotted_sk_is_err", set.sk_from_bytes(&bad_sk).is_err());
+        let mut rot_pk = pkb.clone();
+        let pos = p.usize_below(rot_pk.len());
+        rot_pk[pos] ^= 0x40;
+        match set.pk_from_bytes(&rot_pk) {
+            Ok(k) => {
+                a.bytes("rotted_pk_rt", &k.to_bytes());
+                a.flag("v_rot_pk", k.verify(&msg, &sig, &[], MODES[0]));
+            }
+            Err(_) => a.flag("rotted_pk_is_err", true),
+        }
+        let mut failing = SimRng::new(vec![0; 64], vec![(0, crate::simrng::RngFault::ErrPartial(5))]);
+        a.flag("rng_failure_is_err", sk.sign_rng(&mut failing, &msg, &ctx, MODES[0]).is_err());
+    }
+    Ok(a.hex())
+}
+
+fn os_part(set: &dyn DynSet, seed: u64, iters: u64) -> Result<Option<(String, u64)>, String> {
+    let info = set.info();
+    let mut a = Acc::new();
+    for i in 0..iters {
+        let mut p = Prng::for_run(seed, &format!("digest-os-{}", info.name), i);
+        let mut ks = KState::new(p.bytes(64), vec![KResp::Short(5), KResp::Errno(kernel::EINTR)]);
+        let r = kernel::with_kernel(&mut ks, || set.keygen_os());
+        let Some(r) = r else { return Ok(None) };
+        let (pk, sk) = r.map_err(|e| format!("try_keygen: {e}"))?;
+        a.bytes("pk_os", &pk.to_bytes());
+        a.bytes("sk_os", &sk.to_bytes());
+        let msg = p.bytes(33);
+        for mode in MODES {
+            let mut ks = KState::new(p.bytes(64), vec![]);
+            let sig = kernel::with_kernel(&mut ks, || sk.sign_os(&msg, &[1, 2, 3], mode)).ok_or("sign_os missing")?.map_err(|e| format!("try_sign: {e}"))?;
+            a.bytes("sig_os", &sig);
+            a.flag("v_os", pk.verify(&msg, &sig, &[1, 2, 3], mode));
+        }
+        let mut ks = KState::new(p.bytes(64), vec![KResp::Errno(kernel::EIO)]);
+        a.flag("os_failure_is_err", kernel::with_kernel(&mut ks, || sk.sign_os(&msg, &[], MODES[0])).map(|r| r.is_err()).unwrap_or(false));
+    }
+    Ok(Some(a.hex()))
+}
+
+fn dudect_part(set: &dyn DynSet, seed: u64, iters: u64) -> Result<Option<(String, u64)>, String> {
+    let info = set.info();
+    let mut a = Acc::new();
+    for i in 0..iters {
+        let mut p = Prng::for_run(seed, &format!("digest-dudect-{}", info.name), i);
+        let mut rng = SimRng::healthy(p.bytes(64));
+        let Some(r) = set.dudect(&mut rng, &[0, 1, 2, 3, 4, 5, 6, 7]) else { return Ok(None) };
+        a.bytes("dudect", &r.map_err(|e| format!("dudect: {e}"))?);
+    }
+    Ok(Some(a.hex()))
+}
+
+pub fn run(ctx: &Ctx) -> i32 {
+    let iters = match ctx.tier {
+        Tier::Quick => ctx.scaled(12),
+        Tier::Thorough => ctx.scaled(60),
+    };
+    let all = sets::sets();
+    let outs = run_indexed(all.len() * 3, ctx.workers, |i| {
+        let set = all[i / 3];
+        let r = catch(|| match i % 3 {
+            0 => core_part(set, ctx.seed, iters).map(Some),
+            1 => os_part(set, ctx.seed, iters),
+            _ => dudect_part(set, ctx.seed, iters),
+        });
+        (set.info().name, ["core", "os", "dudect"][i % 3], r)
+    });
+    let mut bad = false;
+    for (name, part, r) in outs {
+        match r {
+            Ok(Ok(Some((hex, n)))) => println!("DIGEST {name} {part} {hex} {n}"),
+            Ok(Ok(None)) => println!("ABSENT {name} {part}"),
+            Ok(Err(e)) => {
+                println!("FAILED {name} {part} {e}");
+                bad = true;
+            }
+            Err(p) => {
+                println!("FAILED {name} {part} panic: {p}");
+                bad = true;
+            }
+        }
+    }
+    // a failing fault-free operation is reported to the driver, which decides what it means
+    if bad {
+        3
+    } else {
+        0
+    }
+}
